@@ -69,8 +69,25 @@ JudgeUnMark(e) ==
   Tag(e.state.pending = post.pending, "UnMark.pending") \o
   Tag(ObsExecuted(e.state) = post.executed, "UnMark.executed")
 
+(* two overlapping calls on transaction 1 (thread 1: AddTransaction; thread 2: e.op2): what was
+   observed - both results and the final pool - must be what one of the two sequential orders
+   of the same calls gives from the prepared state (the pool is not corrupted by concurrency) *)
+SeqOp(p, ex, op) ==      \* <<ok, pending', executed'>> of one call on transaction 1
+  CASE op = "Add"    -> <<AddOk(p, ex, 1), AddPost(p, ex, 1), ex>>
+    [] op = "Mark"   -> LET q == MarkPost(p, ex, {1}, {}) IN <<TRUE, q.pending, q.executed>>
+    [] op = "UnMark" -> LET q == UnMarkPost(p, ex, <<1>>) IN <<TRUE, q.pending, q.executed>>
+JudgeConc(e) ==
+  LET a1 == SeqOp(pending, executed, "Add")
+      a2 == SeqOp(a1[2], a1[3], e.op2)                    \* thread 1 first
+      b2 == SeqOp(pending, executed, e.op2)
+      b1 == SeqOp(b2[2], b2[3], "Add")                    \* thread 2 first
+      obs == <<e.ok1, e.ok2, Set(e.state.pending), ObsExecuted(e.state)>>
+  IN Tag(obs = <<a1[1], a2[1], Set(a2[2]), a2[3]>> \/ obs = <<b1[1], b2[1], Set(b1[2]), b1[3]>>,
+         "Inv.ConcEquivalentToSequential." \o e.op2)
+
 Judge(e) ==
   (CASE e.event = "Add" -> JudgeAdd(e)
+     [] e.event = "Conc" -> JudgeConc(e)
      [] e.event = "Pack" -> JudgePack(e)
      [] e.event = "Mark" -> JudgeMark(e)
      [] e.event = "UnMark" -> JudgeUnMark(e)
